@@ -134,6 +134,38 @@ def run(ctx: core.Ctx):
                         ctx.fail(variant, dict(y=[None if not ok else v + c for v, ok in zip(line, m)], placeholder=nm, params=prm), got.tolist(), want.tolist(),
                                  note="an exactly linear series is returned unchanged, its gaps filled on the same line")
                         break
+    # input ENCODINGS at stiff lambda: the same integer-valued linear series stored as int16 / int32 / float32 / float64 is kept on its line,
+    # shifts with an offset and reverses with time (a single-precision solve would lose ~2e-7 * lambda * |y|: units at lambda >= 1e3)
+    for variant in ("gu", "pgu"):
+        for k in range(ctx.budget(3, 12)):
+            n = rng.choice([24, 60, 90, 120])
+            a0, b0 = rng.randint(2000, 9000), rng.choice([-25, 7, 40, 90])
+            base_line = [a0 + b0 * i for i in range(n)]
+            if min(base_line) < 0 or max(base_line) + 9000 > 32000:
+                b0 = 7
+                base_line = [a0 + b0 * i for i in range(n)]
+            m = [True] * n
+            for i in rng.sample(range(1, n - 1), max(1, n // 8)):
+                m[i] = False
+            for lam in (1e3, 1e4):
+                prm = dict(lam=lam, p=0.9)
+                for dt in ("int16", "int32", "float32", "float64"):
+                    for c, rev in ((0, False), (9000, False), (0, True)):
+                        vals = [(v + c) if ok else -3000 for v, ok in zip(base_line, m)]
+                        if rev:
+                            vals = vals[::-1]
+                        arr = np.array(vals, dtype=dt)
+                        from hdc.algo import ops as _ops
+                        got = np.asarray(_ops.ws2dgu(arr, lam, -3000.0) if variant == "gu" else _ops.ws2dpgu(arr, lam, -3000.0, 0.9)).astype(np.int64)
+                        want = np.array([v + c for v in base_line])[::-1 if rev else 1]
+                        ctx.case(("linear-encoding", variant, a0, b0, n, lam, dt, c, rev), sample=dict(variant=variant, dtype=dt, lam=lam, offset=c, reversed=rev))
+                        ctx.count("linear series, input encodings at stiff lambda")
+                        if not np.array_equal(got, want):
+                            bad_i = int(np.argmax(got != want))
+                            ctx.fail(variant, dict(y=vals if n <= 40 else dict(n=n, first=vals[:12]), dtype=dt, lam=lam, offset=c, reversed=rev, p=0.9 if variant == "pgu" else None),
+                                     dict(cell=bad_i, got=int(got[bad_i])), dict(cell=bad_i, want=int(want[bad_i])),
+                                     note="an exactly linear series is returned unchanged (gaps filled on the line) whatever the input dtype; offsets and reversal commute")
+                            break
     ctx.trusted += ["native model driver (Hdc/Model/Smooth.lean at Float)", "harness/props/c06.py oracle (pairs of real calls)"]
 
 
